@@ -6,6 +6,7 @@
 From Coq Require Import List NArith ZArith Bool Lia ZifyBool.
 Import ListNotations.
 From Verif Require Import Val Tokenizer Expand IfScan MacroSpec ExpandProofs MacroLang Engine MacroPrint.
+From Verif Require Scope Context.
 Local Open Scope N_scope.
 
 (* ---------------------------------------------------------------------------------------------- *)
@@ -66,7 +67,7 @@ Section Mono.
     destruct g' as [|g']; [lia|]. cbn [read_sequence] in *.
     destruct (input st) as [|t0 r0]; [exact H|]. destruct (is_elem t0); [exact H|].
     destruct (macro_name t0) as [nm|].
-    - destruct (lookup st nm) as [[a b|n o b|p|k]|]; try exact H.
+    - destruct (lookup st nm) as [[a b|n o b|p|k|k|k b0|b0]|]; try exact H.
       + destruct (definition_invoke a b r0); [apply IH; [lia|exact H]|exact H].
       + destruct (newcommand_invoke n o b r0); [apply IH; [lia|exact H]|exact H].
     - destruct (text1 t0) as [c|]; [|exact H].
@@ -88,7 +89,8 @@ Section Mono.
   Lemma invoke_mono g g' nm m st r : (g <= g')%nat ->
     invoke nx g nm m st = Ret r -> invoke nx' g' nm m st = Ret r.
   Proof.
-    intros Hg H. destruct m as [a b|na o b|p|k]; try exact H. destruct p; try exact H.
+    intros Hg H. destruct m as [a b|na o b|p|k|k|k b0|b0]; try exact H. destruct p; try exact H.
+    4: { cbn [invoke] in *. apply bind_ret in H as ([z st1] & H1 & H2). rewrite (read_integer_mono _ _ _ _ Hg H1). exact H2. }
     3: { cbn [invoke] in *. unfold newcommand_def in *.
          destruct (input (ros st)) as [|t0 r0]; [exact H|]. destruct (is_elem t0); [exact H|].
          match goal with |- context [read_token ?x] => destruct (read_token x) as [[ntoks|] r2] end; [|exact H].
@@ -329,7 +331,7 @@ Qed.
 
 Lemma walks_test t k : f1_test t = true -> walks (print_test t) k (S k).
 Proof.
-  intros H. destruct t as [| |a r b| | | | | |]; try discriminate H.
+  intros H. destruct t as [| |a r b|a| | | | |]; try discriminate H.
   - apply walks_if. reflexivity.
   - apply walks_if. reflexivity.
   - destruct a as [a|]; [|discriminate H]. destruct b as [b|]; [|discriminate H].
@@ -339,6 +341,14 @@ Proof.
     constructor; [destruct r; reflexivity|].
     apply Forall_app. split; [apply Forall_map_tok; intros c; reflexivity|].
     constructor; [reflexivity|constructor].
+  - destruct a as [a|]; [|discriminate H]. cbn [print_test]. change (esc s_ifodd :: ?l) with ([esc s_ifodd] ++ l).
+    eapply walks_app; [apply walks_if; reflexivity|]. apply walks_toks.
+    apply Forall_app. split; [apply Forall_map_tok; intros c; reflexivity|]. constructor; [reflexivity|constructor].
+Qed.
+
+Lemma walks_test2 t k : f2_test t = true -> walks (print_test t) k (S k).
+Proof.
+  destruct t; try (apply walks_test); try discriminate. intros _. apply walks_if. reflexivity.
 Qed.
 
 Lemma walks_print :
@@ -381,13 +391,18 @@ Proof.
 Qed.
 Lemma flat_test t : Forall flat (print_test t).
 Proof.
-  destruct t as [| |a r b| | | | | |]; try constructor; try (split; reflexivity); try constructor.
-  destruct a as [a|]; [|constructor]. destruct b as [b|]; [|constructor].
-  cbn [print_test]. constructor; [split; reflexivity|].
-  apply Forall_app. split; [apply Forall_map_tok; intros c; split; reflexivity|].
-  constructor; [destruct r; split; reflexivity|].
-  apply Forall_app. split; [apply Forall_map_tok; intros c; split; reflexivity|].
-  constructor; [split; reflexivity|constructor].
+  destruct t as [| |a r b|a| | | | |]; try (constructor; fail).
+  - constructor; [split; reflexivity|constructor].
+  - constructor; [split; reflexivity|constructor].
+  - destruct a as [a|]; [|constructor]. destruct b as [b|]; [|constructor].
+    cbn [print_test]. constructor; [split; reflexivity|].
+    apply Forall_app. split; [apply Forall_map_tok; intros c; split; reflexivity|].
+    constructor; [destruct r; split; reflexivity|].
+    apply Forall_app. split; [apply Forall_map_tok; intros c; split; reflexivity|].
+    constructor; [split; reflexivity|constructor].
+  - destruct a as [a|]; [|constructor]. cbn [print_test]. constructor; [split; reflexivity|].
+    apply Forall_app. split; [apply Forall_map_tok; intros c; split; reflexivity|]. constructor; [split; reflexivity|constructor].
+  - constructor; [split; reflexivity|constructor].
 Qed.
 
 Lemma depth_print :
@@ -542,7 +557,7 @@ Section Numbers.
     - cbn [map app read_sequence input]. rewrite app_nil_r. destruct Hs as (He & [(Hm & c & Ht & Hc & Hsp)|(nm & Hm & Hl)]).
       + rewrite He, Hm, Ht. unfold isdig in Hc. rewrite Hc, Hsp. reflexivity.
       + unfold lookup. cbn [ups bottom]. rewrite He, Hm.
-        destruct (chain_get U B nm) as [[a b|n o b|p|k]|]; try contradiction; reflexivity.
+        destruct (chain_get U B nm) as [[a b|n o b|p|k|k|k b0|b0]|]; try contradiction; reflexivity.
     - cbn [map app read_sequence input]. change (is_elem (other c)) with false.
       change (macro_name (other c)) with (@None (list N)). change (text1 (other c)) with (Some c). cbn iota.
       inversion Hd as [|c' ds' Hc Hd']; subst. unfold isdig in Hc. rewrite Hc. unfold set_input. cbn [input ups bottom].
@@ -691,7 +706,8 @@ Qed.
 
 Definition frel (isb : bool) (mf : MacroLang.frame) (ef : Engine.frame) : Prop :=
   (forall id, findm (mname id) ef = option_map mean_of (alookup id mf)) /\
-  (forall k, (forall id, k <> mname id) -> findm k ef = if isb then findm k base_frame else None).
+  (forall k, (forall id, k <> mname id) ->
+             if isb then swkey k = false -> findm k ef = findm k base_frame else findm k ef = None).
 
 (* [G]: what is known about every stored meaning (fragment dependent) *)
 Definition menv_okg (G : MacroLang.meaning -> Prop) (fs : list MacroLang.frame) : Prop :=
@@ -704,7 +720,7 @@ Lemma frel_nil : frel false [] [].
 Proof. split; intros; reflexivity. Qed.
 
 Lemma frel_init : frel true [] base_frame.
-Proof. split; [intros id; reflexivity|intros k _; reflexivity]. Qed.
+Proof. split; [intros id; reflexivity|intros k _ _; reflexivity]. Qed.
 
 Lemma frel_set isb mf ef nm m :
   frel isb mf ef -> frel isb (aset nm m mf) ((mname nm, mean_of m) :: ef).
@@ -712,6 +728,12 @@ Proof.
   intros [H1 H2]. split.
   - intros id. cbn [findm]. rewrite seqb_mname, alookup_aset. destruct (id =? nm)%Z; [reflexivity|apply H1].
   - intros k Hk. cbn [findm]. rewrite (seqb_neq k (mname nm) (Hk nm)). now apply H2.
+Qed.
+Lemma base_not_swkey k v : findm k base_frame = Some v -> swkey k = false.
+Proof.
+  unfold base_frame. cbn [findm].
+  repeat (match goal with |- context [seqb k ?n] => destruct (seqb k n) eqn:?E; [apply seqb_eq in E; subst k; reflexivity|clear E] end).
+  discriminate.
 Qed.
 
 Lemma frel_remove mf ef nm : alookup nm mf = None -> frel false mf ef -> frel false (aremove nm mf) ef.
@@ -744,9 +766,9 @@ Section Rel.
     - cbn [app lookup_frames chain_get]. rewrite H1. destruct (alookup id mf); [reflexivity|exact IH].
   Qed.
 
-  Lemma Rfg_prim fs U B k : Rfg G fs U B -> (forall id, k <> mname id) -> chain_get U B k = findm k base_frame.
+  Lemma Rfg_prim fs U B k : Rfg G fs U B -> (forall id, k <> mname id) -> swkey k = false -> chain_get U B k = findm k base_frame.
   Proof.
-    intros (mfs & mg & -> & HF & HB & _) Hk. induction HF as [|mf ef mfs U [_ H2] _ IH].
+    intros (mfs & mg & -> & HF & HB & _) Hk Hsw. induction HF as [|mf ef mfs U [_ H2] _ IH].
     - cbn [chain_get]. now apply (proj2 HB).
     - cbn [chain_get]. now rewrite (H2 k Hk).
   Qed.
@@ -814,7 +836,7 @@ Section Rel.
 
   Lemma prim_lookupg fs U B k p : Rfg G fs U B -> (forall id, k <> mname id) -> findm k base_frame = Some (MPrim p) ->
     chain_get U B k = Some (MPrim p).
-  Proof. intros HR Hk Hf. now rewrite (Rfg_prim fs U B k HR Hk). Qed.
+  Proof. intros HR Hk Hf. now rewrite (Rfg_prim fs U B k HR Hk (base_not_swkey k _ Hf)). Qed.
 End Rel.
 
 (* fragment F1: every stored meaning is a parameterless macro with an F1 body *)
@@ -908,6 +930,7 @@ Section Unfold.
   Proof. cbn [gsafe]. rewrite Hs. reflexivity. Qed.
   Lemma gsafe_cond t th el : gsafe (S f) e out (NCond t th el :: rest) =
     let b := if eval_test e1 t then th else match el with Some x => x | None => [] end in
+    (match t with TSwitch sw => match alookup sw (switches e1) with Some _ => true | None => false end | _ => true end) &&
     gsafe f e1 out b && match eval f e1 out b with Ok e' out' => gsafe f e' out' rest | _ => true end.
   Proof. cbn [gsafe]. now rewrite Hs. Qed.
   Lemma eval_call0_good nm m : lookup_frames nm (frames e1) = Some m -> m_n m = O -> m_default m = None ->
@@ -1000,7 +1023,7 @@ Lemma exec_cond fs U B t th el r : Rfg G fs U B -> f1_test t = true -> (forall k
   exec (St (print_test t ++ print th ++ else_part el ++ esc s_fi :: r) U B) []
        (St ((if eval_test e0 t then Xt ++ print th else print (else_nodes el)) ++ r) U B).
 Proof.
-  intros HR Ht Hth Hel e0 He0. destruct t as [| |a rl b| | | | | |]; try discriminate Ht.
+  intros HR Ht Hth Hel e0 He0. destruct t as [| |a rl b|a| | | | |]; try discriminate Ht.
   - exists [], []. split; [constructor|]. split; [intros r'; apply ex_refl|]. eapply (ex_cont O); [|apply ex_refl].
     cbn [print_test app]. rewrite (step_macro _ _ _ s_iftrue (MPrim PIftrue)); [|reflexivity|reflexivity|].
     + cbn [invoke]. pose proof (if_invoke_cond [] th el r true U B (Forall_nil _) Hth Hel) as Hi. cbn [app] in Hi. rewrite Hi. reflexivity.
@@ -1024,6 +1047,19 @@ Proof.
         reflexivity.
       * apply (prim_lookupg G fs); [exact HR|not_mname|reflexivity].
     + apply (prim_lookupg G fs); [exact HR|not_mname|reflexivity].
+  - destruct a as [a|]; [|discriminate Ht]. cbn [f1_test] in Ht. apply Z.leb_le in Ht.
+    exists [esc s_relax], [prim_elem PRelax]. split; [constructor; [reflexivity|constructor]|].
+    split; [intros r'; apply (exec_relax fs), HR|].
+    set (la := length (digits (Z.to_N a))).
+    eapply (ex_cont (S (S la))); [|apply ex_refl].
+    cbn [print_test]. cbn [app]. rewrite <- app_assoc. cbn [app].
+    rewrite (step_macro _ _ _ s_ifodd (MPrim PIfodd)); [|reflexivity|reflexivity|apply (prim_lookupg G fs); [exact HR|not_mname|reflexivity]].
+    cbn [invoke].
+    rewrite (read_integer_digits la (Z.to_N a) (esc s_relax)); [|apply stopper_relax, (prim_lookupg G fs); [exact HR|not_mname|reflexivity]|subst la; lia].
+    cbn [bind]. rewrite Z2N.id by exact Ht.
+    change (esc s_relax :: print th ++ else_part el ++ esc s_fi :: r) with ([esc s_relax] ++ print th ++ else_part el ++ esc s_fi :: r).
+    rewrite (if_invoke_cond [esc s_relax] th el r (Z.odd a) U B); [|constructor; [reflexivity|constructor]|exact Hth|exact Hel].
+    reflexivity.
 Qed.
 End ExecG.
 
@@ -1109,7 +1145,7 @@ Proof.
     + rewrite Htxt2, Htxt1, text_of_app. now rewrite app_assoc.
   - (* conditional *)
     rewrite (eval_cond f e out ns budget Hs) in Hev. rewrite (gsafe_cond f e out ns budget Hs) in Hgs. cbv zeta in Hgs.
-    apply andb_true_iff in Hgs as [Hg1 Hg2].
+    apply andb_true_iff in Hgs as [Hg1 Hg2]. apply andb_true_iff in Hg1 as [Hdecl Hg1].
     set (br := if eval_test (tick e budget) t then th else match el with Some x => x | None => [] end) in *.
     destruct (eval f (tick e budget) out br) as [e2 out2| |] eqn:Eb; try discriminate Hev.
     rewrite print_cond. rewrite <- !app_assoc. cbn [app].
@@ -1139,7 +1175,7 @@ Theorem engine_simulates_F1 fuel p e out :
     text_of T = words_text (rev out) /\
     ups st' = [] /\
     (forall id, findm (mname id) (bottom st') = option_map mean_of (alookup id (last (frames e) []))) /\
-    (forall k, (forall id, k <> mname id) -> findm k (bottom st') = findm k base_frame).
+    (forall k, (forall id, k <> mname id) -> swkey k = false -> findm k (bottom st') = findm k base_frame).
 Proof.
   intros HF Hden Hsafe. apply in_F1_sound in HF. unfold den in Hden. unfold gdef_safe in Hsafe.
   assert (HR0 : Rf (frames empty_env) [] base_frame) by apply Rfg_init.
@@ -1200,11 +1236,11 @@ Qed.
 (* the token shape shared by all fragments: what the scanners need *)
 Fixpoint w_node (x : node) : bool :=
   match x with
-  | NWord _ | NParam _ | NLet _ _ => true
+  | NWord _ | NParam _ | NLet _ _ | NNewSwitch _ | NSetSwitch _ _ => true
   | NGroup b => forallb w_node b
   | NDef _ _ _ d b => opt_ok d && forallb w_node b
   | NCall _ o a => opt_ok o && forallb (forallb w_node) a
-  | NCond t th el => f1_test t && forallb w_node th && match el with Some e => forallb w_node e | None => true end
+  | NCond t th el => f2_test t && forallb w_node th && match el with Some e => forallb w_node e | None => true end
   | NCase a bs el => case_head a bs && forallb (forallb w_node) bs && match el with Some e => forallb w_node e | None => true end
   | _ => false
   end.
@@ -1293,6 +1329,9 @@ Proof.
     + apply walks_wprint.
     + rewrite print_let. apply walks_toks. repeat (constructor; [reflexivity|]). constructor.
     + rewrite print_param. apply walks_toks. constructor; [reflexivity|]. constructor; [reflexivity|constructor].
+    + apply walks_tok. destruct b; reflexivity.
+    + (* \newif: the scanner takes the following token with it, whatever it is *)
+      intros tl cur done els. reflexivity.
   - intros b IH H k. cbn [w_node] in H. rewrite print_group. change (bg :: ?l) with ([bg] ++ l).
     eapply walks_app; [apply walks_tok; reflexivity|]. eapply walks_app; [|apply walks_tok; reflexivity].
     apply walks_list. now apply (Forall_forallb w_node).
@@ -1321,7 +1360,7 @@ Proof.
     eapply walks_app; [now apply walks_list|]. change (eg :: ?l) with ([eg] ++ l).
     eapply walks_app; [apply walks_tok; reflexivity|exact IHa].
   - intros t th el IHth IHel H k. cbn [w_node] in H. apply andb_true_iff in H as [H He]. apply andb_true_iff in H as [Ht Hth].
-    rewrite print_cond. eapply walks_app; [now apply walks_test|].
+    rewrite print_cond. eapply walks_app; [now apply walks_test2|].
     eapply walks_app; [apply walks_list; now apply (Forall_forallb w_node)|].
     eapply walks_app; [|apply walks_fi].
     destruct el as [e|]; [|apply walks_nil].
@@ -1356,6 +1395,8 @@ Proof.
   apply (node_ind2 (fun x => w_node x = true -> forall d, depth_after (print_node x) d = Some d)).
   - intros n Hs H d. destruct n; try discriminate H; try discriminate Hs.
     + apply depth_flat, flat_wprint.
+    + reflexivity.
+    + reflexivity.
     + reflexivity.
     + reflexivity.
   - intros b IH H d. cbn [w_node] in H. rewrite print_group. cbn [depth_after]. change (is_bgroup bg) with true. cbn iota.
@@ -1594,7 +1635,7 @@ Proof.
 Qed.
 Lemma inert_test t : Forall inert (print_test t).
 Proof.
-  destruct t as [| |a r b| | | | | |]; try (constructor; fail).
+  destruct t as [| |a r b|a| | | | |]; try (constructor; fail).
   - constructor; [apply inert_esc; cbv; congruence|constructor].
   - constructor; [apply inert_esc; cbv; congruence|constructor].
   - destruct a as [a|]; [|constructor]. destruct b as [b|]; [|constructor].
@@ -1603,6 +1644,9 @@ Proof.
     constructor; [destruct r; apply inert_other|].
     apply Forall_app. split; [apply Forall_map_tok, inert_other|].
     constructor; [apply inert_esc; cbv; congruence|constructor].
+  - destruct a as [a|]; [|constructor]. cbn [print_test]. constructor; [apply inert_esc; cbv; congruence|].
+    apply Forall_app. split; [apply Forall_map_tok, inert_other|]. constructor; [apply inert_esc; cbv; congruence|constructor].
+  - constructor; [apply inert_esc; unfold ifname, sname; congruence|constructor].
 Qed.
 
 (* ---- print (subst args body) = expandDef (print body) (map print args) ---- *)
@@ -1666,6 +1710,10 @@ Section Subst.
       + cbn [fb_node] in H. apply andb_true_iff in H as [H1 H2]. apply Nat.leb_le in H1, H2. split.
         * rewrite print_param. apply xp_param. lia.
         * apply nth_args_A.
+      + split; [|reflexivity]. cbn [sbn print]. rewrite app_nil_r. apply xp_tok, inert_esc.
+        unfold setname, sname. destruct b; cbn; congruence.
+      + split; [|reflexivity]. cbn [sbn print]. rewrite app_nil_r. apply xp_toks.
+        constructor; [apply inert_esc; cbv; congruence|]. constructor; [apply inert_esc; unfold ifname, sname; congruence|constructor].
     - intros b IH d H. cbn [fb_node] in H. destruct d as [|d]; [discriminate H|].
       destruct (Q_list b d IH H) as [H1 H2]. split.
       + cbn [sbn print]. rewrite print_group, app_nil_r, print_group.
@@ -1902,11 +1950,12 @@ Proof.
   - eexists _, _. split; [apply print_call|split; reflexivity].
   - eexists _, _. split; [apply print_param|split; reflexivity].
   - cbn [w_node] in H. apply andb_true_iff in H as [H _]. apply andb_true_iff in H as [Ht _].
-    rewrite print_cond. destruct t as [| |a r b| | | | | |]; try discriminate Ht.
+    rewrite print_cond. destruct t as [| |a r b|a| | | | |]; try discriminate Ht.
     + eexists _, _. split; [reflexivity|split; reflexivity].
     + eexists _, _. split; [reflexivity|split; reflexivity].
     + destruct a as [a|]; [|discriminate Ht]. destruct b as [b|]; [|discriminate Ht].
       eexists _, _. split; [reflexivity|split; reflexivity].
+    + destruct a as [a|]; [|discriminate Ht]. eexists _, _. split; [reflexivity|split; reflexivity].
   - cbn [w_node] in H. apply andb_true_iff in H as [H _]. apply andb_true_iff in H as [Hh _].
     destruct (case_head_inv _ _ Hh) as (z & b0 & r & -> & -> & Hz).
     eexists _, _. split; [apply print_case_node|split; reflexivity].
@@ -1996,7 +2045,7 @@ Proof. reflexivity. Qed.
 
 Lemma exec_newcommand G fs U B nm np d body r : Rfg G fs U B -> (S np <= 9)%nat ->
   forallb is_word d = true -> depth_after body O = Some O ->
-  (forall p, chain_get U B (mname nm) <> Some (MPrim p)) ->
+  match chain_get U B (mname nm) with Some (MDef _ _) | Some (MNew _ _ _) | None => True | _ => False end ->
   exec (St (esc s_newcommand :: bg :: esc (mname nm) :: eg :: lbr :: map other (digits (N.of_nat (S np))) ++ rbr :: lbr :: print d ++ rbr ::
             bg :: body ++ eg :: r) U B)
        [prim_elem (PNewcommand false)]
@@ -2029,8 +2078,7 @@ Proof.
   rewrite (read_group_app body O [] (eg :: r) O Hb). cbn [read_group]. change (is_bgroup eg) with false. change (is_egroup eg) with true. cbn iota.
   rewrite app_nil_r, rev_involutive. cbn [ttext esc]. unfold lookup. cbn [ups bottom].
   rewrite nat_N_Z, Nat2Z.id.
-  destruct (chain_get U B (mname nm)) as [[a' b'|n' o' b'|p|k]|] eqn:El; try reflexivity.
-  exfalso. now apply (Hnoprim p).
+  destruct (chain_get U B (mname nm)) as [[a' b'|n' o' b'|p|k|k|k b0|b0]|] eqn:El; try reflexivity; contradiction.
 Qed.
 
 (* ---- \ifcase ---- *)
@@ -2212,9 +2260,9 @@ Proof.
       subst global. apply Nat.leb_le in Hnp.
       assert (Hm : good2 m) by (unfold good2; cbn [m_default m m_n m_body]; repeat split; assumption).
       rewrite print_newcommand. cbn [app]. repeat (rewrite <- app_assoc; cbn [app]).
-      assert (Hnoprim : forall p, chain_get U B (mname name) <> Some (MPrim p)).
-      { intros p. rewrite (Rfg_lookup good2 _ _ _ name HR1). destruct (lookup_frames name (frames (tick e budget))) as [m0|]; [|discriminate].
-        cbn [option_map]. unfold mean_of. destruct (m_default m0); discriminate. }
+      assert (Hnoprim : match chain_get U B (mname name) with Some (MDef _ _) | Some (MNew _ _ _) | None => True | _ => False end).
+      { rewrite (Rfg_lookup good2 _ _ _ name HR1). destruct (lookup_frames name (frames (tick e budget))) as [m0|]; [|exact I].
+        cbn [option_map]. unfold mean_of. destruct (m_default m0); exact I. }
       pose proof (exec_newcommand good2 _ U B name nparams dd (print body) (print ns ++ rest) HR1 Hnp Hdw
                     (depth_Wl _ (good2_body_W m Hm) O) Hnoprim) as Hex0.
       change (MNew (S nparams) (Some (print dd)) (print body)) with (mean_of m) in Hex0.
@@ -2286,7 +2334,7 @@ Proof.
   - (* conditional *)
     cbn [f2_node] in Hn. apply andb_true_iff in Hn as [Hn Hel]. apply andb_true_iff in Hn as [Ht Hth].
     rewrite (eval_cond f e out ns budget Hs) in Hev. rewrite (gsafe_cond f e out ns budget Hs) in Hgs. cbv zeta in Hgs.
-    apply andb_true_iff in Hgs as [Hg1 Hg2].
+    apply andb_true_iff in Hgs as [Hg1 Hg2]. apply andb_true_iff in Hg1 as [Hdecl Hg1].
     set (br := if eval_test (tick e budget) t then thn else match els with Some x => x | None => [] end) in *.
     destruct (eval f (tick e budget) out br) as [e2 out2| |] eqn:Eb; try discriminate Hev.
     rewrite print_cond. rewrite <- !app_assoc. cbn [app].
@@ -2335,7 +2383,7 @@ Theorem engine_simulates_F2 fuel p e out :
     text_of T = words_text (rev out) /\
     ups st' = [] /\
     (forall id, findm (mname id) (bottom st') = option_map mean_of (alookup id (last (frames e) []))) /\
-    (forall k, (forall id, k <> mname id) -> findm k (bottom st') = findm k base_frame).
+    (forall k, (forall id, k <> mname id) -> swkey k = false -> findm k (bottom st') = findm k base_frame).
 Proof.
   intros HF Hden Hsafe. unfold in_F2 in HF. unfold den in Hden. unfold gdef_safe in Hsafe.
   destruct (sim2 fuel empty_env [] p e out HF Hden Hsafe [] base_frame [] (Rfg_init good2) I) as (T & U' & B' & Hex & HR & Hlen & Htxt).
@@ -2343,4 +2391,74 @@ Proof.
   destruct (exec_run _ _ _ Hex eq_refl) as (fuel' & Hrun).
   exists fuel', (St [] [] B'), T. split; [exact (Hrun [])|]. split; [cbn in Htxt; now rewrite Htxt|]. split; [reflexivity|].
   destruct HR as (mfs & mg & E & HF2 & HB & _). inversion HF2; subst. rewrite E. cbn [app last bottom]. exact HB.
+Qed.
+
+(* ============================================================================================== *)
+(* Engine frames refine Model/Context.v (C04): for every injective coding of macro names by numbers *)
+(* and every coding of meanings by values that maps the unrecognized class of a name to VUnrec of   *)
+(* its code, the engine's context operations are Context.v's push(None) / pop(None) / addLocal /    *)
+(* addGlobal / lookup / __getitem__ on the abstracted state (no category changes, no \let tokens,   *)
+(* no object frames: cats = cur = 0, lets = [], fobj = None).                                       *)
+(* ============================================================================================== *)
+Section ContextRefinement.
+  Context (cn : list N -> N) (cv : Engine.meaning -> Scope.value).
+  Context (Hinj : forall a b, cn a = cn b -> a = b) (Hunrec : forall k, cv (MUnrec k) = Scope.VUnrec (cn k)).
+
+  Definition abs_frame (f : Engine.frame) : Context.frame :=
+    {| Context.macros := map (fun kv => (cn (fst kv), cv (snd kv))) f; Context.lets := []; Context.cats := O; Context.fobj := None |}.
+  Definition abs_state (s : Engine.state) : Context.state :=
+    {| Context.ups := map abs_frame (ups s); Context.bottom := abs_frame (bottom s);
+       Context.heap := [default_table]; Context.cur := O; Context.m_cells := [] |}.
+
+  Lemma abs_find k f : Scope.find (cn k) (Context.macros (abs_frame f)) = option_map cv (findm k f).
+  Proof.
+    induction f as [|[k' v] f IH]; [reflexivity|]. cbn [abs_frame Context.macros map fst snd Scope.find findm] in *.
+    destruct (seqb k k') eqn:E.
+    - apply seqb_eq in E. subst k'. now rewrite N.eqb_refl.
+    - destruct (N.eqb_spec (cn k') (cn k)) as [Hc|Hc]; [|exact IH].
+      apply Hinj in Hc. subst k'. now rewrite seqb_refl in E.
+  Qed.
+
+  Lemma abs_lookup s k : Context.lookup (abs_state s) (cn k) = option_map cv (Engine.lookup s k).
+  Proof.
+    unfold Context.lookup, Engine.lookup, abs_state. cbn [Context.ups Context.bottom].
+    induction (ups s) as [|f U IH]; cbn [map Context.chain_get Engine.chain_get]; rewrite abs_find; [reflexivity|].
+    destruct (findm k f); [reflexivity|exact IH].
+  Qed.
+
+  Lemma abs_push s : abs_state (push_frame s) = Context.push None (abs_state s).
+  Proof. reflexivity. Qed.
+  Lemma abs_pop s : abs_state (pop_frame s) = Context.pop None (abs_state s).
+  Proof.
+    unfold pop_frame, Context.pop, abs_state, Context.map_methods, Context.set_ups, Context.set_cur, Context.top.
+    cbn [ups bottom set_ups Context.ups Context.bottom Context.heap Context.cur Context.m_cells].
+    destruct (ups s) as [|f [|f' U]]; reflexivity.
+  Qed.
+  Lemma abs_add_global k v s : abs_state (add_global k v s) = Context.add_global (cn k) (cv v) (abs_state s).
+  Proof. reflexivity. Qed.
+  Lemma abs_add_local k v s : abs_state (add_local k v s) = Context.add_local (cn k) (cv v) (abs_state s).
+  Proof. unfold add_local. destruct (ups s) as [|f U] eqn:E; unfold abs_state, Context.add_local, Context.upd_top; cbn; rewrite ?E; reflexivity. Qed.
+  Lemma abs_getitem k s :
+    Context.getitem (cn k) (abs_state s) = (abs_state (fst (getitem k s)), cv (snd (getitem k s))).
+  Proof.
+    unfold Context.getitem, getitem. rewrite abs_lookup. destruct (Engine.lookup s k) as [v|]; [reflexivity|].
+    cbn [option_map fst snd]. now rewrite abs_add_global, Hunrec.
+  Qed.
+End ContextRefinement.
+
+Lemma context_refines (cn : list N -> N) (cv : Engine.meaning -> Scope.value) :
+  (forall a b, cn a = cn b -> a = b) -> (forall k, cv (MUnrec k) = Scope.VUnrec (cn k)) ->
+  forall (s : Engine.state) (k : list N) (v : Engine.meaning),
+    Context.lookup (abs_state cn cv s) (cn k) = option_map cv (Engine.lookup s k) /\
+    Context.getitem (cn k) (abs_state cn cv s) = (abs_state cn cv (fst (getitem k s)), cv (snd (getitem k s))) /\
+    abs_state cn cv (push_frame s) = Context.push None (abs_state cn cv s) /\
+    abs_state cn cv (pop_frame s) = Context.pop None (abs_state cn cv s) /\
+    abs_state cn cv (add_local k v s) = Context.add_local (cn k) (cv v) (abs_state cn cv s) /\
+    abs_state cn cv (add_global k v s) = Context.add_global (cn k) (cv v) (abs_state cn cv s).
+Proof.
+  intros Hinj Hun s k v. repeat split.
+  - now apply abs_lookup.
+  - now apply abs_getitem.
+  - apply abs_pop.
+  - apply abs_add_local.
 Qed.
